@@ -130,6 +130,19 @@ func init() {
 		case "object":
 			e := &efivarfs.EFIFS{FSWrapper: preW}
 			e.SetFS(rec)
+			if len(a[5])%4 == 2 || a[5] == "-" {
+				// the same object has read this variable before, when the file held something else; the
+				// firmware (here: a write that does not pass through the library) has changed or removed it since
+				v := efivar.Efivar{Name: name, GUID: &g, Attributes: attributes.Attributes(req)}
+				afero.WriteFile(rec.base, a[6], append([]byte{byte(req), byte(req >> 8), byte(req >> 16), byte(req >> 24)}, []byte("an earlier value")...), 0644)
+				e.GetVarWithAttributes(v, &recDecoder{})
+				e.GetVar(v, &recDecoder{})
+				if a[5] != "-" {
+					afero.WriteFile(rec.base, a[6], unhx(a[5]), 0644)
+				} else {
+					rec.base.Remove(a[6])
+				}
+			}
 			at, err = e.GetVarWithAttributes(efivar.Efivar{Name: name, GUID: &g, Attributes: attributes.Attributes(req)}, dec)
 		case "object-getvar":
 			e := &efivarfs.EFIFS{FSWrapper: fswrapper.NewMemoryWrapper()}
@@ -164,7 +177,7 @@ func init() {
 		}
 	}
 	checkers["C11"] = checker{
-		rule: "every predefined variable and random name/GUID/attribute combinations, values of every kind (empty, boolean, UTF-16 string, database, raw), all 256 attribute masks on writes, stored masks that are supersets / subsets / disjoint / equal / lacking exactly one required bit on reads, absent and 0..3-byte files, four efivars directories (set after the objects were constructed), files that deliver short reads, the object API (EFIFS.WriteVar/GetVar/GetVarWithAttributes, FSWrapper) and the legacy attributes.* functions; a recording afero.Fs reports every state-changing call; R_C11 (extracted) requires success with exactly OpenFile(path, flags)+Write(attrs||value) (and, when the file system stores one byte less without an error, the same single Write and no success) resp. the model's read result; every case is non-trivial (no degenerate class), distinct by argument hash",
+		rule: "every predefined variable and random name/GUID/attribute combinations, values of every kind (empty, boolean, UTF-16 string, database, raw), all 256 attribute masks on writes, stored masks that are supersets / subsets / disjoint / equal / lacking exactly one required bit on reads, absent and 0..3-byte files, four efivars directories (set after the objects were constructed), files that deliver short reads, files changed or removed behind the library's back after the same object had read them, the object API (EFIFS.WriteVar/GetVar/GetVarWithAttributes, FSWrapper) and the legacy attributes.* functions; a recording afero.Fs reports every state-changing call; R_C11 (extracted) requires success with exactly OpenFile(path, flags)+Write(attrs||value) (and, when the file system stores one byte less without an error, the same single Write and no success) resp. the model's read result; every case is non-trivial (no degenerate class), distinct by argument hash",
 		run:  runC11,
 	}
 }
